@@ -527,6 +527,10 @@ func (e *Env) call(n *SNode) SV {
 		return svTerm(x.wrapBits(argT(0), 32, false))
 	case "wrap16u":
 		return svTerm(x.wrapBits(argT(0), 16, false))
+	case "wrap8u":
+		return svTerm(x.wrapBits(argT(0), 8, false))
+	case "wrap64s":
+		return svTerm(x.wrapBits(argT(0), 64, true))
 	case "isnil":
 		a := e.eval(n.Args[0])
 		return svTerm(e.equal(a, SV{Nil: true}))
